@@ -2,6 +2,7 @@ import Parmcb.Driver.Proto
 import Parmcb.Driver.Gf2
 import Parmcb.Driver.Fp
 import Parmcb.Driver.Graph
+import Parmcb.Driver.Knob
 open Parmcb.Driver
 
 def dispatch (c : Case) : String :=
@@ -12,6 +13,7 @@ def dispatch (c : Case) : String :=
   | "forest" => handleForest c
   | "fvs" => handleFvs c
   | "exact" => handleExact c
+  | "knob" => handleKnob c
   | k => s!"diff {c.id} unknown-kind {k}"
 
 partial def readAll (h : IO.FS.Stream) (acc : Array String) : IO (Array String) := do
